@@ -2,8 +2,14 @@
 """Print the prompt given to an independent sub-agent for one property (property text + scratch worktree only)."""
 import json, sys
 pid = sys.argv[1]
-wt = f"/tmp/wt/{pid}"
+variant = sys.argv[2] if len(sys.argv) > 2 else ''
+wt = f"/tmp/wt/{pid}{variant}"
 p = next(json.loads(l) for l in open('/verif/properties.jsonl') if json.loads(l)['id'] == pid)
+EXTRA = ''
+if variant == 'b':
+    EXTRA = (" IMPORTANT for this round: both changes must be made inside the source file of ONE SPECIFIC optimizer each (a file under pyvolutionary/<algorithm_name>/, two different algorithms), preferably in a rarely executed branch, a boundary case of that algorithm's own arithmetic, or its handling of its private state - NOT in abstract.py, helpers.py, models.py, hypertuner.py or multitask.py. Avoid the simplest ideas (deleting a call to the correction/clipping step, flipping the comparison of a sort).")
+if variant == 'c':
+    EXTRA = (" IMPORTANT for this round: prefer changes that only manifest in mode='thread' or mode='process' (a particular completion order of pooled evaluations, worker count, state shared between workers, what is or is not copied into a worker process), or only after a particular SEQUENCE of calls on the same objects (reuse of optimizer / task / configuration / tuner objects).")
 print(f"""You are helping to evaluate a verification effort for the open-source Python library `pyvolutionary` (about 80 nature-inspired metaheuristic optimizers sharing a common population/selection loop in pyvolutionary/abstract.py, helpers in helpers.py, pydantic variable/task models in models.py, HyperTuner and Multitask utilities). Your job is to play the role of a developer who introduces a realistic, subtle bug.
 
 Your private scratch copy of the repository is the git worktree `{wt}` (work ONLY there; never touch /repo or /verif, and do not read /verif). Python is `/venv/bin/python`; run things as `cd {wt} && PYTHONPATH={wt} /venv/bin/python ...` so that the worktree copy of the package is imported (check `pyvolutionary.__file__` once). There is no network.
@@ -17,10 +23,10 @@ The semantic property that should hold for the library:
 
 TASK: produce TWO different, independent changes to the library source (files under `pyvolutionary/` only — not tests) that each BREAK this property, while
   (a) the package still imports and runs, and
-  (b) the existing test suite still passes entirely with the change applied: `cd {wt} && PYTHONPATH={wt} /venv/bin/python -m pytest -q -p no:cacheprovider --timeout=900 -n 4` (about 285 tests, several minutes; you may run a relevant subset while iterating, but run the whole suite once per final change and report the pass count).
-Prefer changes that need something SPECIFIC to manifest — an unusual but valid input (asymmetric bounds, a maximisation task, a particular variable mix, population size not divisible by something), a rarely taken random branch, a particular completion order of pooled evaluations, a multi-step sequence of calls, a particular configuration value, or two cooperating sites that each look fine alone — NOT changes that ordinary use would expose at once or that make every run crash. They should look like plausible refactoring slips or "optimisations" a reviewer could miss (a few lines each). The two changes should be in different places / of different nature.
+  (b) the existing test suite still passes entirely with the change applied: `cd {wt} && PYTHONPATH={wt} /venv/bin/python -m pytest -q -p no:cacheprovider --timeout=900` (about 285 tests, ~5 minutes, SEQUENTIAL - the official way; the test modules share objects, so results under `-n` can differ: you may use `-n 4` or a relevant subset while iterating, but run the whole suite sequentially once per final change and report the pass count).
+Prefer changes that need something SPECIFIC to manifest — an unusual but valid input (asymmetric bounds, a maximisation task, a particular variable mix, population size not divisible by something), a rarely taken random branch, a particular completion order of pooled evaluations, a multi-step sequence of calls, a particular configuration value, or two cooperating sites that each look fine alone — NOT changes that ordinary use would expose at once or that make every run crash. They should look like plausible refactoring slips or "optimisations" a reviewer could miss (a few lines each). The two changes should be in different places / of different nature.{EXTRA}
 
-For each change k in {{1,2}} create the directory `{wt}/out/{pid}_k/` containing:
+For each change k in {{1,2}} create the directory `{wt}/out/{pid}{variant}_k/` containing:
   - `patch.diff`: the output of `git diff` for the library change alone (must apply with `git apply` to a clean checkout of this worktree's HEAD),
   - `demo.py`: a small self-contained program (it may loop over seeds/inputs, may take up to ~60 s) that exits with status 0 on the unmodified library and with a non-zero status (assertion failure) when the change is applied, demonstrating the property violation through the public API,
   - `notes.md`: 5-10 lines: what the change is, why it breaks the property, what is needed for it to manifest, and the exact commands you ran with their results (full-suite pass count with the change; demo result with and without the change).
